@@ -604,6 +604,16 @@ FIO_openDstFile(FIO_ctx_t* fCtx, FIO_prefs_t* const prefs,
             prefs->sparseFileSupport = 0;
             DISPLAYLEVEL(4, "Sparse File Support is automatically disabled on stdout ; try --sparse \n");
         }
+#if defined(F_GETFL) && defined(O_APPEND)
+        if (prefs->sparseFileSupport) {
+            /* `>> file` : every write lands at the end of the file, seeking over zeroes has no effect and they would be lost */
+            int const flags = fcntl(fileno(stdout), F_GETFL);
+            if (flags != -1 && (flags & O_APPEND)) {
+                prefs->sparseFileSupport = 0;
+                DISPLAYLEVEL(3, "Sparse File Support is disabled : stdout is in append mode \n");
+            }
+        }
+#endif
         return stdout;
     }
 
